@@ -276,4 +276,15 @@ def build_family(tier, checks, kinds=('String', 'Purl'), name_prefix=''):
                 add(T, ty, 'n', [('with_namespace', ('hole', 'h', n, b'/a'))])
                 add(T, ty, 'n', [('with_subpath', ('hole', 'h', n, b'/.a'))])
             add(T, ty, 'n', FULL + [('with_namespace', ('hole', 'h', 5, b'/a')), ('with_subpath', ('hole', 'g', 3, b'/.a'))])
+            # text that looks like an escape (the builder takes decoded text: a '%' is a character, `%41` is three characters)
+            ESC = b'%2541a'
+            for meth in ('with_namespace', 'with_version', 'with_subpath'):
+                for n in (3, 5):
+                    add(T, ty, 'n', [(meth, ('hole', 'h', n, ESC))])
+            add(T, ty, ('hole', 'h', 5, ESC), [])
+            add(T, ty, 'n', [('with_qualifier', 'k', ('hole', 'h', 5, ESC))])
+            add(T, ty, 'n', FULL + [('with_namespace', ('hole', 'h', 3, ESC)), ('with_subpath', ('hole', 'g', 3, ESC))])
+            # a user-written typed qualifier whose declared key has upper-case letters
+            for tag in ('K', 'Ab'):
+                add(T, ty, 'n', [('with_qualifier', 'a', '1'), ('typed_model', tag, ('hole', 'h', 1)), ('with_qualifier', ('hole', 'g', 1), '2')])
     return qs
